@@ -33,6 +33,10 @@ def cases(tier, seed):
         for ny in sizes:
             for h in HALOS:
                 out.append({"nx": nx, "ny": ny, "halo": h, "tier": tier, "seed": seed})
+    # coordinate clause over many (extent, cell count) pairs: x = i*dx, y = j*dy must hold for every accepted grid, also where
+    # extent / count is not exactly representable (300 m / 7, 100 m / 29, 0.3 m / 3)
+    for i in range(16 if tier == "quick" else 256):
+        out.append({"seed": seed, "kind": "coords", "idx": i, "tier": tier, "_cost": 4})
     out_ = out
     if tier == "thorough":
         out_.append({"seed": seed, "kind": "repo_tests", "_cost": 40})
@@ -55,6 +59,8 @@ def run_case(case):
     import numpy as np
     from vlib import gen, solve
 
+    if case.get("kind") == "coords":
+        return coords(case)
     S = solve.S()
     nx, ny, hk, tier = case["nx"], case["ny"], case["halo"], case["tier"]
     rng = gen.rng_for(case["seed"], "C11", nx, ny, hk)
@@ -203,6 +209,58 @@ def run_case(case):
     buckets[f"parity:{'even' if nx % 2 == 0 else 'odd'}x{'even' if ny % 2 == 0 else 'odd'}"] = 1
     return {"evals": counters["tuples"], "nontrivial": bool(sigs), "sig": sigs, "buckets": buckets, "resid": resid, "counters": counters,
             "violations": viol, "sample": sample}
+
+
+def coords(case):
+    import numpy as np
+    from vlib import gen, solve
+
+    S = solve.S()
+    rng = gen.rng_for(case["seed"], "C11coords", case["idx"])
+    z, prof = column()
+    viol, sigs = [], []
+    n = 0
+    worst = 0.0
+    EXT = [100.0, 120.0, 300.0, 1000.0, 250.0, 50.0, 0.3, 1.0, 7.0, 1e4, 75.5, 33.3]
+    for k in range(64):
+        ext = float(rng.choice(EXT)) if rng.random() < 0.7 else float(10 ** rng.uniform(-1, 4))
+        cnt = int(rng.integers(2, 65))
+        oth_ext, oth_cnt = float(rng.choice(EXT)), int(rng.integers(2, 7))
+        along_x = bool((k + case["idx"]) % 2)
+        (xmax, nx), (ymax, ny) = ((ext, cnt), (oth_ext, oth_cnt)) if along_x else ((oth_ext, oth_cnt), (ext, cnt))
+        fp = bool(rng.random() < 0.5)
+        halo = float(rng.choice([0.0, 0.4 * min(xmax / nx, ymax / ny)]))
+        lv = [0, 3] if k % 3 else 4
+        q0 = rng.normal(size=(ny, nx))
+        tup = dict(domain=(xmax, ymax), cells=(nx, ny), footprint=fp, halo=halo, levels=lv)
+        try:
+            g, c, f = S(q0, z, prof, (xmax, ymax), lv, halo=halo, precision="double", footprint=fp,
+                        meas_pt=((nx // 2) * (xmax / nx), (ny // 2) * (ymax / ny)) if fp else (0.0, 0.0))
+        except (ValueError, IndexError):
+            continue
+        n += 1
+        c, f = np.asarray(c), np.asarray(f)
+        X, Y, Z = (np.asarray(a) for a in g)
+        shp = ((2, ny, nx) if np.ndim(lv) else (ny, nx))
+        if c.shape != shp or f.shape != shp:
+            viol.append({"what": "output_shape_differs_from_input_grid", "tuple": tup, "got": c.shape, "expected": shp})
+            continue
+        if X.shape != shp or Y.shape != shp or Z.shape != shp:
+            viol.append({"what": "output_coordinates", "tuple": tup, "detail": "coordinate arrays do not have the shape of the fields",
+                         "coordinate_shapes": (X.shape, Y.shape, Z.shape), "field_shape": shp})
+            continue
+        ex, ey = np.arange(nx) * (xmax / nx), np.arange(ny) * (ymax / ny)
+        X2, Y2 = X.reshape((-1, ny, nx)), Y.reshape((-1, ny, nx))
+        e = max(float(np.max(np.abs(X2 - ex[None, None, :]))) / xmax, float(np.max(np.abs(Y2 - ey[None, :, None]))) / ymax)
+        worst = max(worst, e)
+        if e > 1e-12:
+            viol.append({"what": "output_coordinates", "tuple": tup, "rel": e})
+        zz = np.asarray(z)[lv]
+        if not np.array_equal(Z.reshape((-1, ny, nx))[:, 0, 0], np.atleast_1d(zz)):
+            viol.append({"what": "output_coordinates", "tuple": tup, "detail": "Z is not the height of the requested levels"})
+        sigs.append(f"coords|{xmax:.6g}|{nx}|{ymax:.6g}|{ny}")
+    return {"evals": n, "nontrivial": bool(sigs), "sig": sigs, "buckets": {"coordinate_clause": 1}, "resid": {"coordinates_rel": worst},
+            "counters": {"coordinate_pairs": n}, "violations": viol, "sample": {"kind": "coords", "pairs": n}}
 
 
 def finalize(results, tier):
